@@ -79,8 +79,11 @@ def check_prox(ctx, f, sp, sigma, x, comp, cfg, rng, tags, P=None):
         try:
             cands = [p * (1 - 1e-13), p * (1 - 1e-12)]
             feas = []
-            for k in range(16):
-                z = P(functab.rand_el(sp, rng, (2.0, 0.3, 5.0, 1.0)[k % 4]))
+            for k in range(24):
+                if k < 16:
+                    z = P(functab.rand_el(sp, rng, (2.0, 0.3, 5.0, 1.0)[k % 4]))
+                else:
+                    z = P(p + functab.rand_el(sp, rng, (1e-1, 1e-2)[k % 2]))
                 if np.isfinite(f(z)):
                     feas.append(z)
                     cands.extend(p + t * (z - p) for t in (1e-13, 1e-12, 1e-11))
@@ -91,7 +94,7 @@ def check_prox(ctx, f, sp, sigma, x, comp, cfg, rng, tags, P=None):
                     zbar = zbar + z * (1.0 / len(feas))
                 cands.extend(p + t * (zbar - p) for t in (1e-13, 1e-12, 1e-11, 1e-10))
             for q in cands:
-                if np.isfinite(f(q)) and (q - p).norm() <= 1e-10 * max(1.0, p.norm()):
+                if np.isfinite(f(q)) and (q - p).norm() <= 1e-9 * max(1.0, p.norm()):
                     near = True
                     break
         except Exception:
